@@ -1566,6 +1566,63 @@ theorem emitSpec_len (c : PhyCmd) (hv : ValidCmd c) : ∀ e ∈ emitSpec c, e.te
     omega
   | raw ty => simp [emitSpec] at he
 
+/-- a reply `RSP <v> <tail>\0` whose verb is not a prefix of what follows `CMD ` in the pending
+command is a mismatch: `rsp_error` -/
+theorem cReadCb_mismatch (t : Trx) (tcm : CtrlMsg) (q : List CtrlMsg) (v tail : List Nat)
+    (hq : t.queue = tcm :: q) (hv : ∀ c ∈ v, c ≠ 32 ∧ c ≠ 0) (htail : ∀ c ∈ tail, c ≠ 0)
+    (hnp : v ≠ (cmdStrAt tcm 4).take v.length)
+    (hlen : (str "RSP " ++ v ++ [32] ++ tail ++ [0]).length ≤ trxcBufSize - 1) :
+    cReadCb t (str "RSP " ++ v ++ [32] ++ tail ++ [0]) =
+      .ok (rspError { t with ev := t.ev ++ [Event.timerDel], elog := true }) := by
+  have hcap : trxcBufSize = 1024 := by decide
+  generalize hbody : v ++ [32] ++ tail = body
+  generalize hdd : str "RSP " ++ v ++ [32] ++ tail ++ [0] = d at hlen ⊢
+  have hd : d = str "RSP " ++ body ++ [0] := by rw [← hdd, ← hbody]; simp
+  have hbnz : ∀ c ∈ body, c ≠ 0 := by
+    intro c hc
+    rw [← hbody] at hc
+    simp only [List.mem_append, List.mem_singleton] at hc
+    rcases hc with (hc | hc) | hc
+    · exact (hv c hc).2
+    · omega
+    · exact htail c hc
+  have hrnz : ∀ c ∈ str "RSP " ++ body, c ≠ 0 := by
+    intro c hc
+    rw [List.mem_append] at hc
+    rcases hc with hc | hc
+    · exact str_nz "RSP " (by decide) c hc
+    · exact hbnz c hc
+  have htake : d.take (trxcBufSize - 1) = d := List.take_of_length_le hlen
+  have hl0 : d.length ≠ 0 := by rw [hd]; simp
+  have hs0 : cstrAt (d ++ [0]) trxcBufSize 0 = .ok (str "RSP " ++ body) := by
+    have := cstrAt_mid [] (str "RSP " ++ body) [0] trxcBufSize hrnz (by rw [hcap]; decide)
+    simpa [hd] using this
+  have hs4 : cstrAt (d ++ [0]) trxcBufSize 4 = .ok body := by
+    have := cstrAt_mid (str "RSP ") body [0] trxcBufSize hbnz (by rw [hcap]; decide)
+    have e : (str "RSP ").length = 4 := by decide
+    rw [e] at this
+    simpa [hd] using this
+  have hsig : strncmpEq (str "RSP " ++ body) (str "RSP ") 4 = true := by
+    simp only [strncmpEq, beq_iff_eq]
+    rw [List.take_left' (by decide)]
+    rfl
+  have hidx : strchrIdx body 32 = some v.length := by
+    have hi : body.idxOf 32 = v.length := by
+      rw [← hbody]
+      have : v ++ [32] ++ tail = v ++ 32 :: tail := by simp
+      rw [this]
+      exact idxOf_verb v _ (fun c hc => (hv c hc).1)
+    simp only [strchrIdx, hi]
+    rw [if_pos (by rw [← hbody]; simp)]
+  have hmis : strncmpEq body (cmdStrAt tcm 4) v.length = false := by
+    simp only [strncmpEq]
+    rw [← hbody, List.append_assoc, List.take_left' rfl]
+    simpa using hnp
+  unfold cReadCb
+  simp only [bind, Except.bind, pure, Except.pure, htake]
+  rw [if_neg hl0, hs0]
+  simp only [hsig, Bool.not_true, Bool.false_eq_true, if_false, hs4, hidx, rspLenOf, hq, hmis, Bool.not_false, if_true]
+
 /-! ### well-formed command texts -/
 
 /-- a decimal argument: digits, optionally with a minus sign -/
